@@ -168,6 +168,110 @@ theorem trunc_le_double (x : F32) (hn : Normal x) (h12 : 12 ≤ x.e) :
   rw [trunc_eq x h12, trunc_eq (mul12 x) (by omega)]
   omega
 
+theorem rneDiv_ge (a b : Nat) : a / b ≤ rneDiv a b := by
+  unfold rneDiv; simp only; split <;> omega
+
+theorem rneDiv_le (a b : Nat) : rneDiv a b ≤ a / b + 1 := by
+  unfold rneDiv; simp only; split <;> omega
+
+theorem norm_normal (r e : Nat) (h1 : 8388608 ≤ r) (h2 : r ≤ 16777216) : Normal (norm r e) := by
+  unfold norm Normal
+  split
+  · simp
+  · simp only; omega
+
+theorem norm_e (r e : Nat) : e ≤ (norm r e).e ∧ (norm r e).e ≤ e + 1 := by
+  unfold norm; split <;> simp
+
+/-- rounding a rational ≥ 1 gives a normal number -/
+theorem ofRat_normal (num den : Nat) (hden : 0 < den) (hk : num / den ≠ 0) : Normal (ofRat num den) := by
+  have hlo : 2 ^ Nat.log2 (num / den) ≤ num / den := Nat.log2_self_le hk
+  have hhi : num / den < 2 ^ (Nat.log2 (num / den) + 1) := Nat.lt_log2_self
+  have h1 : den * 2 ^ Nat.log2 (num / den) ≤ num :=
+    Nat.le_trans (Nat.mul_le_mul_left _ hlo) (Nat.mul_div_le num den)
+  have h2 : num < den * 2 ^ (Nat.log2 (num / den) + 1) := by
+    have : num < den * (num / den + 1) := Nat.lt_mul_div_succ num hden
+    exact Nat.lt_of_lt_of_le this (Nat.mul_le_mul_left _ hhi)
+  unfold ofRat
+  simp only
+  generalize Nat.log2 (num / den) = e at *
+  split
+  · rename_i he
+    apply norm_normal
+    · refine Nat.le_trans ?_ (rneDiv_ge _ _)
+      rw [Nat.le_div_iff_mul_le hden]
+      have : 8388608 * den = den * 2 ^ 23 := by rw [Nat.mul_comm]
+      rw [this]
+      have h23 : 23 = e + (23 - e) := by omega
+      rw [h23, Nat.pow_add, ← Nat.mul_assoc]
+      have : e + (23 - e) - e = 23 - e := by omega
+      rw [this]
+      exact Nat.mul_le_mul_right _ h1
+    · refine Nat.le_trans (rneDiv_le _ _) ?_
+      have : num * 2 ^ (23 - e) / den < 16777216 := by
+        rw [Nat.div_lt_iff_lt_mul hden]
+        have h24 : 16777216 * den = den * 2 ^ (e + 1) * 2 ^ (23 - e) := by
+          rw [Nat.mul_assoc, ← Nat.pow_add]
+          have : e + 1 + (23 - e) = 24 := by omega
+          rw [this, Nat.mul_comm]
+        rw [h24]
+        exact Nat.mul_lt_mul_of_pos_right h2 (Nat.pow_pos (by decide))
+      omega
+  · rename_i he
+    have hD : 0 < den * 2 ^ (e - 23) := Nat.mul_pos hden (Nat.pow_pos (by decide))
+    apply norm_normal
+    · refine Nat.le_trans ?_ (rneDiv_ge _ _)
+      rw [Nat.le_div_iff_mul_le hD]
+      have : 8388608 * (den * 2 ^ (e - 23)) = den * 2 ^ e := by
+        have he' : e = (e - 23) + 23 := by omega
+        conv => rhs; rw [he', Nat.pow_add]
+        have : (2:Nat) ^ 23 = 8388608 := by decide
+        rw [this]
+        simp only [Nat.mul_assoc, Nat.mul_comm, Nat.mul_left_comm]
+      rw [this]; exact h1
+    · refine Nat.le_trans (rneDiv_le _ _) ?_
+      have : num / (den * 2 ^ (e - 23)) < 16777216 := by
+        rw [Nat.div_lt_iff_lt_mul hD]
+        have : 16777216 * (den * 2 ^ (e - 23)) = den * 2 ^ (e + 1) := by
+          have he' : e + 1 = (e - 23) + 24 := by omega
+          conv => rhs; rw [he', Nat.pow_add]
+          have : (2:Nat) ^ 24 = 16777216 := by decide
+          rw [this]
+          simp only [Nat.mul_assoc, Nat.mul_comm, Nat.mul_left_comm]
+        rw [this]; exact h2
+      omega
+
+theorem ofRat_small (num den : Nat) (hk : num / den = 0) : (ofRat num den).e ≤ 1 := by
+  unfold ofRat
+  simp only [hk]
+  have : Nat.log2 0 = 0 := by decide
+  rw [this]
+  simp only [Nat.zero_le, if_true]
+  exact (norm_e _ 0).2
+
+/-- the initial leaf size, whatever the number of entries, is a normal float32 ≥ 4096 -/
+theorem init_ok (n : Nat) : Normal (init n) ∧ 12 ≤ (init n).e := by
+  unfold init
+  simp only
+  split
+  · exact ⟨⟨by decide, by decide⟩, by decide⟩
+  · rename_i h
+    refine ⟨?_, by omega⟩
+    unfold div3500 at h ⊢
+    split
+    · rename_i h23
+      rw [if_pos h23] at h
+      apply ofRat_normal _ _ (by decide)
+      intro hk
+      have := ofRat_small _ _ hk
+      omega
+    · rename_i h23
+      rw [if_neg h23] at h
+      apply ofRat_normal _ _ (Nat.mul_pos (by decide) (Nat.pow_pos (by decide)))
+      intro hk
+      have := ofRat_small _ _ hk
+      omega
+
 theorem optimizeLoopF_terminates (ser : List Entry → Bytes) (budget : Nat) (es : List Entry)
     (hsmall : ∀ l : List Entry, l.length ≤ 1 → (ser l).length ≤ budget) :
     ∀ fuel x, Normal x → 12 ≤ x.e → 1 ≤ fuel → es.length < fuel + trunc x →
